@@ -891,7 +891,11 @@ void matrix_exponential(gsl_matrix_complex* eA, const gsl_matrix_complex *A){
   B.reset(A->size1,A->size2);
   gsl_matrix_complex_memcpy(B,A);
   gsl_matrix_complex_scale(B,gsl_complex_rect(pow(2.,s*(-1.)),0));
-  s += ell(B,13);
+  // ell() may ask for extra squarings; B has to be scaled by the same total power of two as A2, A4 and A6
+  const unsigned int s_extra = ell(B,13);
+  if(s_extra>0)
+    gsl_matrix_complex_scale(B,gsl_complex_rect(pow(2.,s_extra*(-1.)),0));
+  s += s_extra;
   //std::cout << "s " << s << std::endl;
   // rescale all matrices
   /*
